@@ -5,6 +5,7 @@
 #include "common.hpp"
 #include "inspect.hpp"
 #include "digest_twins.hpp"
+#include "hashtwins.hpp"
 #include "reserved.hpp"
 #include <ipr/impl>
 #include <unordered_map>
@@ -333,6 +334,27 @@ static void collisions_workload(Harness& H, bool thorough)
          ++i;
       }
       ctx().count("words_given_an_equal_hash_neighbour", ok);
+      // ... and ordinary words with the same hash code AND the same length as the word (possible from 9 bytes on), with a printable,
+      // a NUL and a high last byte: interned before and after the word they collide with
+      for (auto w : { "a_nine_by", "exactly_16_bytes", "seventeen_bytes_x", "a_word_of_thirty_three_bytes_____", "unsigned long long int" }) targets.push_back(w);
+      long long same_len = 0; i = 0;
+      for (auto& t : targets) {
+         for (unsigned char last : { (unsigned char)'~', (unsigned char)0, (unsigned char)0x9F }) {
+            const std::string c = same_length_hash_twin(t, last);
+            if (c.empty()) continue;
+            ++same_len;
+            const bool is_reserved = std::find(std::begin(reserved_words), std::end(reserved_words), widen(t)) != std::end(reserved_words);
+            const String* first = nullptr;
+            if (i++ % 2 == 0) first = &H.intern(t, "word-with-an-equal-hash-and-length-neighbour");
+            H.intern(c, "equal-hash-and-length-neighbour-of-a-word");
+            const String& after = H.intern(t, "word-with-an-equal-hash-and-length-neighbour");
+            const String& twin_again = H.intern(c, "equal-hash-and-length-neighbour-of-a-word");
+            if (&twin_again == &after) ctx().viol("equal-hash-neighbour:same-length:one-node-for-two-words", "a word and an ordinary word with the same length and hash code are one node", H.desc(t, "word-with-an-equal-hash-and-length-neighbour"));
+            if (first && first != &after) ctx().viol("equal-hash-neighbour:same-length:word-changed-node", "a word maps to another node once an ordinary word with the same length and hash code has been interned", H.desc(t, "word-with-an-equal-hash-and-length-neighbour"));
+            if (is_reserved && &after != &elsewhere.get_string(widen(t))) ctx().viol("equal-hash-neighbour:same-length:reserved-word-lost-its-constant", "a reserved word no longer maps to its process-wide node once an ordinary word with the same length and hash code has been interned", H.desc(t, "word-with-an-equal-hash-and-length-neighbour"));
+         }
+      }
+      ctx().count("words_given_an_equal_hash_and_length_neighbour", same_len);
       if (bad) ctx().inconclusive("equal-hash neighbour generator does not match this platform's std::hash (" + std::to_string(bad) + " words)");
    }
    ctx().count("equal_hash_chains_verified", verified);
@@ -448,7 +470,7 @@ static void body(Ctx& C)
           "all earlier Strings are re-read (address, length, bytes) and storage intervals [header,end) are checked pairwise disjoint");
    C.assume("storage interval of a dynamic word = 8-byte length header immediately before characters() (pinned layout), used only for the overlap check");
    for (auto k : { "pool_rollovers", "oversize_own_pool", "oversize_fitted_current_pool", "boundary_requests_rolled_over", "boundary_requests_fitted",
-                   "equal_hash_chains_verified", "equal_hash_prefix_chains_verified", "words_given_an_equal_hash_neighbour", "re_interned", "rechecks", "interval_checks", "reserved_words_checked", "interned:reserved-near-miss", "first_pool_filled_exactly", "views_into_pool_storage", "sources_at_odd_alignment", "digest_twins_interned" }) C.need(k);
+                   "equal_hash_chains_verified", "equal_hash_prefix_chains_verified", "words_given_an_equal_hash_neighbour", "words_given_an_equal_hash_and_length_neighbour", "re_interned", "rechecks", "interval_checks", "reserved_words_checked", "interned:reserved-near-miss", "first_pool_filled_exactly", "views_into_pool_storage", "sources_at_odd_alignment", "digest_twins_interned" }) C.need(k);
    {  // a completely empty first pool: words that fill it exactly, or miss by one byte
       for (long long n : { (1LL << 20) - 8, (1LL << 20) - 7, (1LL << 20) - 24, (1LL << 20) - 9 }) {
          Harness F(C.seed + 17 + std::uint64_t(n));
